@@ -33,6 +33,7 @@ EMIT = [
     ["emit", "flush", [], {}],
     ["emit", "set_diti", [1], {}],
     ["emit", "comment", ["line one\nline two\n\n"], {}],
+    ["emit", "comment", ["range 10\x9620 g/L \x80\x9f " + "".join(chr(c) for c in range(0xA1, 0x100))], {}],
     ["emit", "evo_wash", [], {"tips": [1, 2], "waste_location": [52, 2], "cleaner_location": [52, 1]}],
 ]
 NAMES = ["w.gwl", "W.GWL", "other.gwl", "w.txt", "w", "w.gwlx"]
@@ -78,7 +79,7 @@ class Harness(cm.BaseA):
         return {"wl": wl, "files": files}
 
     def core_events(self, W, config):
-        return EMIT[:4] + [["save", "w.gwl", "str"], ["save", "W.GWL", "Path"], ["save", "w.txt", "str"], ["save", "other.gwl", "str"], ["enter"], ["exit", False], ["exit", True]]
+        return EMIT[:4] + EMIT[10:11] + [["save", "w.gwl", "str"], ["save", "W.GWL", "Path"], ["save", "w.txt", "str"], ["save", "other.gwl", "str"], ["enter"], ["exit", False], ["exit", True]]
 
     def full_events(self, W, config):
         ev = list(EMIT if config["cls"] == "EvoWorklist" else EMIT[:-1])
